@@ -22,7 +22,9 @@ RULE = ("cases = (transport serial|socket, greeting start|none|'Grbl 1.1', "
         "ok, per statement: acknowledgement withheld for 0..3 controller "
         "ticks, 0..2 unsolicited lines before it (busy echo, temperature "
         "auto-report, Grbl status), an error reply instead of the ack "
-        "(error:20 / Error:.. / ALARM:1 / !! ..) at a chosen position, "
+        "(error:20 / Error:.. / ALARM:1 / !! ..) at a chosen position, an "
+        "unsolicited error/alarm line after an acknowledgement (must surface "
+        "at the next write), "
         "connection loss at the last position; handshake replies drained "
         "before the first statement, or (minority, counted) not); "
         "non-trivial = a case where some ack was withheld >=1 tick, or an "
@@ -82,6 +84,8 @@ def run_case(case, cl=None):
             b["error"] = ERRORS[st_["error"] % len(ERRORS)]
         if st_.get("lose") and k == len(case["stmts"]) - 1:
             b["lose"] = True
+        if st_.get("alarm_after") is not None and not b.get("error") and not b.get("lose"):
+            b["after"] = [ERRORS[st_["alarm_after"] % len(ERRORS)]]
         if txt.startswith("M114"):
             b["report"] = f"X:{k + 1}.50 Y:2.00 Z:3.00 E:0.00 Count X:80 Y:160 Z:1200"
         if txt.startswith("M105"):
@@ -128,9 +132,16 @@ def run_case(case, cl=None):
                     else:
                         quiet = None
                     time.sleep(0.004)
+            pending_alarm = None
             for k, (st_, txt) in enumerate(zip(case["stmts"], sent_texts)):
                 gate = f"g{k}"
                 box = {}
+                if pending_alarm is not None:
+                    # let the reader consume the unsolicited error line first
+                    t0 = time.time()
+                    while fw.pending() and time.time() - t0 < 3:
+                        time.sleep(0.003)
+                    time.sleep(0.02)
 
                 def call(txt=txt, box=box):
                     try:
@@ -170,6 +181,25 @@ def run_case(case, cl=None):
                                     f"reply was released (statement #{k}, lost={fw.lost}); {desc}")
                 kind, exc = box["r"]
                 b = behaviours[txt]
+                if pending_alarm is not None and not b.get("lose"):
+                    cl.add("unsolicited_error_between_statements")
+                    if kind != "exc" or not isinstance(exc, DeviceError):
+                        raise Violation(
+                            f"the device sent {pending_alarm!r} after acknowledging the "
+                            f"previous statement, but the next write({txt!r}) returned "
+                            f"{kind} {exc!r} instead of raising a DeviceError; {desc}")
+                    pending_alarm = b["after"][0] if b.get("after") else None
+                    results.append(kind)
+                    continue
+                pending_alarm = b["after"][0] if b.get("after") else None
+                if pending_alarm is not None and kind == "exc" and isinstance(exc, DeviceError) \
+                        and pending_alarm.strip() in str(exc) and not b.get("error"):
+                    # the unsolicited line overtook the return of this very write():
+                    # it has surfaced (once), which is all the property asks
+                    cl.add("unsolicited_error_surfaced_at_same_statement")
+                    pending_alarm = None
+                    results.append(kind)
+                    continue
                 if b.get("error"):
                     cl.add("error_reply")
                     if kind != "exc" or not isinstance(exc, DeviceError):
@@ -218,7 +248,8 @@ def run_case(case, cl=None):
             exp = exp[:len(log)] if log == exp[:len(log)] else exp
         if log != exp:
             raise Violation(f"device received {log!r}, statements written were {exp!r}; {desc}")
-        if fw.pending() and not fw.lost:
+        trailing_unsolicited = bool(behaviours[sent_texts[-1]].get("after"))
+        if fw.pending() and not fw.lost and not trailing_unsolicited:
             raise Violation(f"disconnect(wait=True) returned with {fw.pending()} device "
                             f"replies still unread; {desc}")
 
@@ -236,7 +267,8 @@ def run_case(case, cl=None):
         return cl
     cl.add("transport:" + case["transport"])
     cl.add("greeting:" + str(case["greeting"]))
-    if cl & {"ack_withheld", "error_reply", "connection_loss", "unsolicited_lines"}:
+    if cl & {"ack_withheld", "error_reply", "connection_loss", "unsolicited_lines",
+             "unsolicited_error_between_statements"}:
         cl.add("NT")
     return cl
 
@@ -274,7 +306,8 @@ def strategy():
     stmt = st.fixed_dictionaries({
         "s": st.integers(0, 9), "hold": st.integers(0, 3)}, optional={
         "unsolicited": st.lists(st.integers(0, 4), min_size=1, max_size=2),
-        "error": st.integers(0, 4), "okline": st.booleans()})
+        "error": st.integers(0, 4), "okline": st.booleans(),
+        "alarm_after": st.integers(0, 4)})
     return st.fixed_dictionaries({
         "transport": st.sampled_from(["serial", "serial", "socket"]),
         "greeting": st.sampled_from(["start", None, "Grbl 1.1"]),
